@@ -216,6 +216,7 @@ def oracle(case, results):
 
     D = {n: (v if v and "error" not in v else dict(empty)) for n, v in view(recs[0]).items()}
     garbage = {}  # per file: lines that only exist because a write was cut short
+    damaged = set()  # files an injected short write left unparseable; tracked again once they read back
     for k in range(1, len(steps)):
         if k >= len(recs):
             break
@@ -265,6 +266,7 @@ def oracle(case, results):
                                    "detail": f"step {k} argv={st['argv']}: {wfault} fired, exit status 0, {n} lost {lost} and lacks the requested {want}"})
                 if "error" in obs:
                     D[n] = dict(empty)
+                    damaged.add(n)
                 else:
                     # what a write that was cut short left behind may contain half a line that reads like a notice of
                     # its own: only what the file declared before, or what this run was asked to add, counts as declared
@@ -289,8 +291,14 @@ def oracle(case, results):
                     D[n] = _without(obs, garbage.get(n))
                 continue
             if "error" in obs:
+                if n in damaged:
+                    # the injected short write of an earlier step left half a line that does not parse; the tool warns,
+                    # adds its header and leaves the fragment: the file was unreadable before this step, not because of it
+                    D[n] = dict(empty)
+                    continue
                 vs.append({"sig": f"C09/unreadable-after-success/{obs['error']}", "detail": f"step {k} argv={st['argv']} file={n}"})
                 return vs
+            damaged.discard(n)
             many = "/multi-file" if len(named) > 1 else ""
             want_l = set(D[n]["licenses"]) | set(req["licenses"])
             lost_l = sorted(want_l - set(obs["licenses"]))
